@@ -51,6 +51,7 @@ gorder = z3.Function('gorder', Int, Int)                   # abstract graph: num
 gnedges = z3.Function('gnedges', Int, Int)                 # number of edges
 bdegl = z3.Function('bdegl', Int, Int, Int)                # bipartite graph: degree of a left vertex
 bdegr = z3.Function('bdegr', Int, Int, Int)                # bipartite graph: degree of a right vertex
+navail_x = z3.Function('navail_x', Int, Int, Int)          # number of k-parities over n variables compatible with the planted assignments (uninterpreted)
 navail_p = z3.Function('navail_p', Int, Int, Int)          # number of k-clauses over n variables compatible with the planted assignments of the call (uninterpreted)
 gedge1 = z3.Function('gedge1', Int, Int, Int)              # e-th edge (as enumerated by G.edges()): first endpoint
 gedge2 = z3.Function('gedge2', Int, Int, Int)              # second endpoint
